@@ -258,6 +258,25 @@ def PNode.definedAt : PNode V → Int → Bool
   | .scale _ _, _ => true
   | .node _, _ => true
 
+/-! ## Building a node: `add_child`, `merge` -/
+
+/-- `ParameterNode.add_child`: a name already present is refused (`ValueError`), otherwise the
+    child is appended (dict insertion order). Every construction route — `data=` dict, directory
+    of YAML files, explicit `add_child`, `merge` — goes through it. -/
+def addChild (cs : List (String × PNode V)) (name : String) (c : PNode V) :
+    Except String (List (String × PNode V)) :=
+  if cs.any (fun p => p.1 == name) then .error "ValueError: already a child of that name"
+  else .ok (cs ++ [(name, c)])
+
+/-- `ParameterNode.merge`: `add_child` for every child of the other node, in its order -/
+def mergeChildren (cs : List (String × PNode V)) : List (String × PNode V) →
+    Except String (List (String × PNode V))
+  | [] => .ok cs
+  | (k, c) :: rest =>
+    match addChild cs k c with
+    | .ok cs' => mergeChildren cs' rest
+    | .error e => .error e
+
 /-! ## Histories over several objects: `clone()` -/
 
 /-- one step of a history over several objects (`Parameter`, `ParameterNode`, `ParameterScale`):
